@@ -387,6 +387,16 @@ fn child() {
     let b = runner::child_input();
     let log = new_log();
     let d = match build(&b, &log) {
+        // `twin`: a second fmt subscriber with the same field formatter sits next to the recorded one on the same registry (two
+        // outputs, as in "stdout plus file"); it writes to a sink nobody reads and must not disturb the first one
+        Stack::L(l) if b["twin"].as_bool().unwrap_or(false) => {
+            let twin: BoxL = if b["format"] == "json" {
+                Box::new(tracing_subscriber::fmt::subscriber().json().with_writer(std::io::sink))
+            } else {
+                Box::new(tracing_subscriber::fmt::subscriber().with_ansi(false).with_writer(std::io::sink))
+            };
+            Dispatch::new(tracing_subscriber::registry().with(vec![l, twin]))
+        }
         Stack::L(l) => Dispatch::new(tracing_subscriber::registry().with(l)),
         Stack::D(d) => d,
     };
